@@ -46,6 +46,22 @@ def isconfigtype(obj: Any) -> bool:
     return inspect.isclass(obj) and issubclass(obj, ConfigType)
 
 
+def copy_basic_value(value: Any) -> Any:
+    """
+    Copy a basic value: lists and dicts are copied at every level, anything else (scalars and
+    objects) is used as it is. Field defaults go through this so that no two configurations, and
+    no configuration and the field's declared default, share a nested list or dict.
+
+    :param value: the value to copy
+    :returns: the copy
+    """
+    if isinstance(value, list):
+        return [copy_basic_value(item) for item in value]
+    if isinstance(value, dict):
+        return {key: copy_basic_value(item) for key, item in value.items()}
+    return value
+
+
 class ValidationError(ValueError):
     """
     An error that occurs while validating a field's value or entire configuration.
